@@ -223,6 +223,12 @@ impl RoleManager for DefaultRoleManager {
         name2: &str,
         domain: Option<&str>,
     ) -> Result<()> {
+        // add_link never stores a link from a name to itself (and creates no
+        // role for it), so there is nothing to delete and nothing to miss
+        if name1 == name2 {
+            return Ok(());
+        }
+
         if !self.domain_has_role(name1, domain)
             || !self.domain_has_role(name2, domain)
         {
